@@ -142,3 +142,40 @@ def count_level(model, target):
             if rem >= 0:
                 total += cnt(pre, length - (n - 1), rem)
     return total
+
+
+def search_space(model, target, cap=10 ** 7):
+    """Number of partial strings (prefixes) whose accumulated cost does not exceed `target`, summed over all lengths and
+    initial n-grams - an upper bound on what a depth-first generator may have to visit for this level even when the level
+    itself is tiny. Stops counting at `cap`."""
+    n = model.ngram
+    total = 0
+    for length, ll in model.ln.items():
+        if length < n or ll > target:
+            continue
+        steps = length - (n - 1)
+        for pre, il in model.ip.items():
+            rem = target - ll - il
+            if rem < 0:
+                continue
+            # layer[(ctx, cost)] = number of prefixes
+            layer = {(pre, 0): 1}
+            total += 1
+            for _ in range(steps):
+                nxt = {}
+                for (ctx, cost), cnt in layer.items():
+                    succ = model.cp.get(ctx)
+                    if not succ:
+                        continue
+                    for ch, lvl in succ.items():
+                        c2 = cost + lvl
+                        if c2 <= rem:
+                            key = ((ctx + ch)[1:], c2)
+                            nxt[key] = nxt.get(key, 0) + cnt
+                layer = nxt
+                total += sum(layer.values())
+                if total > cap:
+                    return total
+                if not layer:
+                    break
+    return total
